@@ -181,6 +181,7 @@ func (l *Loc) Copy(src, dst string) error {
 		return locations.ErrNotFound
 	}
 	d := l.full(dst)
+	l.gate("copy", d)
 	l.files[d] = b
 	l.journal = append(l.journal, LocOp{Kind: "copy", Path: d, Data: b})
 	l.cond.Broadcast()
